@@ -239,6 +239,46 @@ example : IndexedOK [0, 10, 11] [97, 98, 99, 100, 101, 102, 103, 104, 105, 106, 
       = some [97, 98, 99, 100, 101, 102, 103, 104, 105, 106] ∧ 2 * 2 < 10 :=
   ⟨by unfold IndexedOK; decide, by decide, by decide⟩
 
+/-! ## maps that are not ordered (NC02a)
+
+The map of the side that does not drive a join repeats a run of row numbers once per duplicate key of the driving side
+(`[0,1,2,0,1,2]`), so it is not non-decreasing. Since the repair of `next_map_subchunk` (a sub-chunk ends where the map
+steps back) both streams compute the specified column for EVERY in-range map; the ordering hypothesis of the theorems
+above is no longer needed. -/
+
+/-- `ordered_map_valid_stream` on any in-range map, ordered or not, every chunk size ≥ 1, every marker. -/
+theorem map_stream_eq_any {α} (src : List α) (m : List Int) (inv : Int) (cs : Nat) (empty : α)
+    (hcs : 1 ≤ cs) (hr : InRange src.length m inv) :
+    ∃ out, orderedMapValidStream src m inv cs empty = .ok out ∧ mapSpec src inv empty m = some out :=
+  stream_spec_any src m inv cs empty hcs hr
+
+/-- `ordered_map_valid_indexed_stream` on any in-range map, ordered or not. -/
+theorem map_indexed_stream_eq_any {β} (indices : List Int) (values : List β) (m : List Int) (inv : Int) (cs vf : Nat)
+    (hok : IndexedOK indices values) (hcs : 1 ≤ cs)
+    (hr : InRange (entries indices values).length m inv)
+    (hcap : ∀ (r : Nat) (k : Int) (x : List β), m[r]? = some k → k ≠ inv →
+      (entries indices values)[k.toNat]? = some x → x.length ≤ cs * vf) :
+    ∃ out, orderedMapValidIndexedStream indices values m inv cs vf = .ok out ∧
+      mapIndexedSpec indices values inv m = some out :=
+  indexed_stream_spec_any indices values m inv cs vf hok hcs hr hcap
+
+/-- every piece of the splitter has non-decreasing valid entries, whatever the map: the source window
+    `[first valid, last valid]` read for a piece therefore contains every row the piece refers to. -/
+theorem subchunk_entries_ordered (m : List Int) (inv : Int) (cs : Nat) (hcs : 1 ≤ cs) :
+    ∃ subs, subchunks m inv cs = .ok subs ∧ Tiles subs 0 m.length ∧
+      ∀ t ∈ subs, ∀ (i j : Nat) (a b : Int), t.1 ≤ i → i ≤ j → j < t.2 → m[i]? = some a → m[j]? = some b →
+        a ≠ inv → b ≠ inv → a ≤ b :=
+  subchunks_mono m inv cs hcs
+
+/-- the NC02a witness: right map of `left=[2,2]`, `right=[2,2,2]`, chunk size 2 -/
+example : InRange 3 [0, 1, 2, 0, 1, 2] INVALID_INDEX_64 ∧ ¬ ValidMonotone [0, 1, 2, 0, 1, 2] INVALID_INDEX_64 :=
+  ⟨inRange_of_all (by decide), fun h => absurd (h 2 3 2 0 (by decide) rfl rfl (by decide) (by decide)) (by decide)⟩
+example : subchunks [0, 1, 2, 0, 1, 2] INVALID_INDEX_64 2 = .ok [(0, 2), (2, 3), (3, 5), (5, 6)] := by rfl
+example : orderedMapValidStream [500, 501, 502] [0, 1, 2, 0, 1, 2] INVALID_INDEX_64 2 (0 : Int)
+    = .ok [500, 501, 502, 500, 501, 502] := by rfl
+example : orderedMapValidIndexedStream [0, 1, 3, 6] [97, 98, 98, 99, 99, 99] [0, 1, 2, 0, 1, 2] INVALID_INDEX_64 2 2
+    = .ok ([0, 1, 3, 6, 7, 9, 12], [97, 98, 98, 99, 99, 99, 97, 98, 98, 99, 99, 99]) := by rfl
+
 /-! ## the non-streaming helpers give the same answer -/
 
 /-- `safe_map_values` with the filter "entry is not the marker" returns the specified column (empty value: the
@@ -331,7 +371,7 @@ theorem decomposition_partition (indices : List Int) (budget : Int) (s e : Nat) 
     what D9 broke for the sentinels `DataFrame.merge` passes): in every piece `(s, e)` returned by
     `get_map_subchunks_based_on_index_lengths` any two valid entries differ by less than `chunksize`, so the slice
     `data_field.data[first : last+1]` read for the piece has at most `chunksize` elements. -/
-theorem source_window_bounded (m : List Int) (inv : Int) (cs : Nat) (hcs : 1 ≤ cs) (hm : ValidMonotone m inv) :
+theorem source_window_bounded (m : List Int) (inv : Int) (cs : Nat) (hcs : 1 ≤ cs) (_hm : ValidMonotone m inv) :
     ∃ subs, subchunks m inv cs = .ok subs ∧
       ∀ t ∈ subs, ∀ (p q : Nat) (a b : Int), t.1 ≤ p → p < t.2 → t.1 ≤ q → q < t.2 →
         m[p]? = some a → m[q]? = some b → a ≠ inv → b ≠ inv → b - a < cs := by
@@ -339,7 +379,7 @@ theorem source_window_bounded (m : List Int) (inv : Int) (cs : Nat) (hcs : 1 ≤
   refine ⟨subs, h1, ?_⟩
   intro t ht p q a b hp1 hp2 hq1 hq2 hpa hqb ha hb
   rw [h3 t ht] at hp2 hq2
-  exact nextMapSubchunk_span m t.1 inv cs hm p q a b hp1 hp2 hq1 hq2 hpa hqb ha hb
+  exact nextMapSubchunk_span m t.1 inv cs p q a b hp1 hp2 hq1 hq2 hpa hqb ha hb
 
 /-- with the 64-bit sentinel and chunksize 4 the trailing unmatched rows start a piece of their own instead of being
     treated as huge valid indices -/
